@@ -11,7 +11,7 @@ CHECKS = {
          "DESIGN.md §3 C07"),
  "C08": ("model_checking",
          "stateless schedule enumeration of the real UI and fan-out code under a cooperative scheduler: depth-first search with replay, preemption bound raised 0,1,2(,3), happens-before fingerprint pruning; vector-clock conflict detection on instrumented field accesses in every explored execution",
-         "11 UI scenarios (open, feed, keys, resize, link selection, media hook, command line, racing loaders, two loaders on one collection; each goroutine started as main does) and 7 pub-level scenarios (post fan-out, activity, two-page harvest, duplicate authors through the coalescing fetcher, replies built by a post's own constructor, NewSplicer, replenish), every schedule with at most 1 preemption in all of them and at most 2 in most (quick, 45 s per scenario, about 130 000 executions) / up to 3 (thorough, 8 min per scenario): the UI lock is held in every private State method and frame, frames never overlap, no deadlock or panic, loaders finish, frames have the terminal's height, every final state equals that of a non-preemptive (serial) schedule, constructed items are identical in all schedules, one request per URL, and no two accesses to a struct field of pub or splicer or to a local variable that a closure assigns, one of them a write, are unordered by the execution's happens-before relation.",
+         "11 UI scenarios (open, feed, keys, resize, link selection, media hook, command line, racing loaders, two loaders on one collection; each goroutine started as main does) and 7 pub-level scenarios (post fan-out, activity, two-page harvest, duplicate authors through the coalescing fetcher, replies built by a post's own constructor, NewSplicer, replenish), every schedule with at most 1 preemption in all of them and at most 2 in most (quick, 45 s per scenario, about 130 000 executions) / up to 3 (thorough, 8 min per scenario): the UI lock is held in every private State method and frame, frames never overlap, no deadlock or panic, loaders finish, frames have the terminal's height, every final state equals that of a non-preemptive (serial) schedule, constructed items are identical in all schedules, one request per URL, and no two accesses to a struct field of pub or splicer, to a local variable that a closure assigns or to a package-level variable written at run time (any package), one of them a write, are unordered by the execution's happens-before relation.",
          "Scheduling points at Lock, Wait, go, exit, dial and the output callback (sufficient for data-race-free code); data-race freedom is decided for struct fields of pub and splicer by the conflict detector (accesses rewritten to verifrt.R/Wr by mkoverlay); closure-captured locals, map contents and slice elements are covered indirectly (result determinism) and by a supplement that is sampling, not the deciding step: the same scenario bodies built with -race and run free (3 rounds quick, 40 thorough); a race report is a violation. UI scenarios inline the pub fan-out; the evidence lists the completed bound per scenario and exhaustive=true means every scenario finished bound 1.",
          "DESIGN.md §3 C08, §2.2"),
  "C19": ("exploration",
